@@ -49,6 +49,13 @@ def pageOp (p : Page) (op : List String) : Option Page :=
   | ["collect", "1"] => some (lfCollectForce (tfCollect p))
   | ["collect+extend", n] => let q := lfCollect (tfCollect p); if q.capacity + n.toNat! ≤ q.reserved ∧ q.free.isEmpty then some (extend q n.toNat!) else none
   | ["extend", n] => if p.capacity + n.toNat! ≤ p.reserved then some (extend p n.toNat!) else none
+  | ["visit", u, l] =>
+      -- _mi_heap_area_visit_blocks first force-collects the page, then reports every block that is not on the free list, in address order
+      let q := lfCollectForce (tfCollect p)
+      let vis := visitList q
+      let seen := parseList ("x=" ++ l)
+      -- (`area.used` is taken before the collect: it still counts blocks on the thread-free list)
+      if vis == seen && parseKV u == p.used then some q else none
   | ["nop"] => some p
   | _ => none
 
